@@ -2,13 +2,14 @@
 
 Bounded exhaustive enumeration: (n_dimensions, n_tables) x seeds x feature count x every
 n-tuple over {-1,0,1}^d as stored contexts x arm assignments x every composition into fit +
-partial_fit* x n_jobs for hashing; queries: every stored row, 2x / 4x / 0.5x every stored row,
+partial_fit* x n_jobs for hashing; queries: every stored row, 2x / 4x / 0.5x / 2^600x / 2^-600x every stored row,
 every grid point and the zero row.  The oracle reads the hyperplanes the bandit drew at fit
 time, computes every projection exactly (fractions), forms the collision set over tables on the
 harness's own copy of the history and trains the learning policy on exactly that set."""
 from .. import env  # noqa: F401
 import copy
 import itertools
+import math
 from fractions import Fraction
 
 import numpy as np
@@ -89,7 +90,7 @@ def _sign_pattern(planes, x):
             if v == 0:
                 has_zero = True
             else:
-                scale = (sum(float(t) ** 2 for t in x) ** 0.5) * float(np.linalg.norm(p[:, j]))
+                scale = math.hypot(*[float(t) for t in x]) * float(np.linalg.norm(p[:, j]))
                 if abs(float(v)) < 1e-12 * max(scale, 1e-300):
                     amb = True
             if v > 0:
@@ -104,10 +105,13 @@ def assignments(n, tier):
     return [([1, 2] * n)[:n], ([1, 1, 2, 2] * n)[:n], [2] * n]
 
 
+MULTIPLES = (1, 2, 4, 0.5, 2.0 ** 600, 2.0 ** -600)      # the direction decides, whatever the magnitude
+
+
 def queries_for(pts, grid):
     qs, kinds = [], []
     for p in pts:
-        for c in (1, 2, 4, 0.5):
+        for c in MULTIPLES:
             qs.append([c * v for v in p])
             kinds.append("stored*%s" % c)
     for g in grid:
@@ -168,7 +172,7 @@ def judge(cfg, ln, hist_rows, comp, qs, kinds, acc=None, prefit=False):
             break
         if kind.startswith("stored*"):
             src = kinds[:qi + 1].count("stored*1") - 1 if kind == "stored*1" else None
-            key = qi // 4
+            key = qi // len(MULTIPLES)
             if kind == "stored*1":
                 base[key] = e
                 if key not in nb:
